@@ -802,3 +802,22 @@ func (x *xferWorld) dumpWire(rc *runCtx, n int) {
 		show(c.R)
 	}
 }
+
+// hangClass names the state a hung conversation is stuck in (used in violation signatures).
+func (x *xferWorld) hangClass() string {
+	cls := ""
+	for _, r := range x.relay {
+		if r.relayStatus.Load() == kRelayHandshaking {
+			cls += ":relay-stuck-handshaking"
+			break
+		}
+	}
+	_, deliv, _ := x.upLast().Snapshot()
+	if x.markUp <= len(deliv) {
+		deliv = deliv[x.markUp:]
+	}
+	if !x.server.Exited && len(vParseWire(deliv, false)) == 0 {
+		cls += ":server-awaiting-act"
+	}
+	return cls
+}
